@@ -84,21 +84,69 @@ Definition bcase_model_ok (c : bcase) : bool :=
   list_eqb fval_eqb (post_tokens (wire (bc_cfg c)) (bc_evs c)) (bc_post c) &&
   forallb (fun p => list_eqb dv_eqb (received (restrict (bc_cfg c) (fst p)) (bc_evs c) (fst p)) (snd p)) (bc_alone c).
 
-Inductive case := CR (c : rcase) | CB (c : bcase).
-Definition case_id (c : case) : N := match c with CR r => rc_id r | CB b => bc_id b end.
+(* ---- kind "conc": K senders, each its own goroutine and its own stream, one server ---- *)
+Record ccase := mkCCase {
+  cc_id : N;
+  cc_cfg : config;
+  cc_streams : list (list event);           (* per sender; event ids unique over all streams *)
+  cc_obs : list (str * list (N * fval))     (* per capture channel: arrival order *)
+}.
+
+Definition SIG_C_MISSING := 6%N.  (* concurrent senders: an event reached a channel fewer times than admitting filters name it *)
+Definition SIG_C_EXTRA := 7%N.    (* concurrent senders: a delivery nobody accounts for *)
+Definition SIG_C_ORDER := 8%N.    (* concurrent senders: one sender's own events overtook each other *)
+
+Definition mem_id (i : N) (l : list N) : bool := existsb (fun j => (j =? i)%N) l.
+
+(* what the channel saw of one sender: the deliveries whose id belongs to the stream *)
+Definition of_sender (st : list event) (obs : list (N * fval)) : list (N * fval) :=
+  filter (fun d => mem_id (fst d) (map ev_id st)) obs.
+
+Definition sender_sig (cfg : config) (c : str) (obs : list (N * fval)) (st : list event) : N :=
+  let io := map fst (of_sender st obs) in
+  let isp := map fst (spec_received cfg st c) in
+  if list_eqb N.eqb io isp then
+    if forallb (fun d => fval_eqb (snd d) (FStr (c_token cfg))) (of_sender st obs) then 0%N else SIG_TOKEN
+  else if existsb (fun i => Nat.ltb (count_id i io) (count_id i isp)) isp then SIG_C_MISSING
+  else if existsb (fun i => Nat.ltb (count_id i isp) (count_id i io)) io then SIG_C_EXTRA
+  else SIG_C_ORDER.
+
+Definition ccase_sig (c : ccase) : N :=
+  let all_ids := flat_map (map ev_id) (cc_streams c) in
+  first_nz (flat_map (fun p =>
+              (if forallb (fun d => mem_id (fst d) all_ids) (snd p) then 0%N else SIG_C_EXTRA) ::
+              map (sender_sig (cc_cfg c) (fst p) (snd p)) (cc_streams c)) (cc_obs c)).
+
+(* the model: every sender's projection is what the channel receives from that stream alone
+   (Proofs: interleaving lemmas), in the terms of the model *)
+Definition ccase_model_ok (c : ccase) : bool :=
+  let all_ids := flat_map (map ev_id) (cc_streams c) in
+  forallb (fun p =>
+    forallb (fun d => mem_id (fst d) all_ids) (snd p) &&
+    forallb (fun st => list_eqb dv_eqb (of_sender st (snd p)) (received (cc_cfg c) st (fst p))) (cc_streams c))
+    (cc_obs c).
+
+Inductive case := CR (c : rcase) | CB (c : bcase) | CC (c : ccase).
+Definition case_id (c : case) : N := match c with CR r => rc_id r | CB b => bc_id b | CC x => cc_id x end.
 
 Definition mismatches (cs : list case) : list N :=
-  map case_id (filter (fun c => negb (match c with CR r => rcase_ok r | CB b => bcase_model_ok b end)) cs).
+  map case_id (filter (fun c => negb (match c with
+                                      | CR r => rcase_ok r
+                                      | CB b => bcase_model_ok b
+                                      | CC x => ccase_model_ok x
+                                      end)) cs).
 
 Definition violations (cs : list case) : list (N * N) :=
   flat_map (fun c => match c with
                      | CR _ => []
                      | CB b => let s := bcase_sig b in if (s =? 0)%N then [] else [(bc_id b, s)]
+                     | CC x => let s := ccase_sig x in if (s =? 0)%N then [] else [(cc_id x, s)]
                      end) cs.
 
 (* tags.  regex: 1 = matches, 2 = does not.  bus: 0 = nothing to route (no events, or no
    filter names a configured channel); 1 = every copy the wiring could deliver was
-   refused by a filter; 2 = some delivered, some refused; 3 = all delivered *)
+   refused by a filter; 2 = some delivered, some refused; 3 = all delivered.
+   conc: 4 + number of senders (0 if nothing can be delivered) *)
 Definition possible (cfg : config) (evs : list event) : nat :=
   (length evs * length (wire cfg))%nat.
 
@@ -110,4 +158,7 @@ Definition tags (cs : list case) : list (N * N) :=
         let p := possible (bc_cfg b) (bc_evs b) in
         let d := length (run (wire (bc_cfg b)) (bc_evs b)) in
         if Nat.eqb p 0 then 0 else if Nat.eqb d 0 then 1 else if Nat.ltb d p then 2 else 3
+    | CC x =>
+        if Nat.eqb (length (run (wire (cc_cfg x)) (concat (cc_streams x)))) 0 then 0
+        else 4 + N.of_nat (length (cc_streams x))
     end)%N) cs.
